@@ -302,13 +302,9 @@ def mkSpan (c : Cfg) (path : Path) (key e ds : Str) (p : Pay) : SpanSt :=
     ingSel := if path = .otlp then none else some (samplerKey c.pfx key e ds) }
 
 /-- `getEnvironmentName` as the handlers use it: no lookup for empty and classic keys; when the
-lookup fails the OTLP path drops the request (`none`), while `batch` answers with an error *and goes
-on* with the empty environment. -/
-def resolveEnv (path : Path) (key : Str) (env : Option Str) : Option Str :=
-  if key = [] || isLegacyKey key then some []
-  else match env with
-    | some e => some e
-    | none => if path = .otlp then none else some []
+lookup fails both `batch` and the OTLP path answer with the error and ingest nothing (`none`). -/
+def resolveEnv (_path : Path) (key : Str) (env : Option Str) : Option Str :=
+  if key = [] || isLegacyKey key then some [] else env
 
 /-- `processEvent` for one event whose fields were extracted with the selection `skf`. -/
 def routeExtract (c : Cfg) (path : Path) (key e ds : Str) (data : List (Str × Val)) (skf : List Str) : Routed :=
@@ -327,7 +323,7 @@ def routeWith (c : Cfg) (path : Path) (key e ds : Str) (data : List (Str × Val)
 def routeSpan (c : Cfg) (path : Path) (key : Str) (env : Option Str) (ds : Str) (data : List (Str × Val)) : Routed :=
   if AList.get c.rules defaultName = none then .nosampler      -- harness guard: the sampler factory would exit the process
   else match resolveEnv path key env with
-    | none => .nothing
+    | none => .nothing                                         -- failed environment lookup: request refused
     | some e => routeWith c path key e ds data
 
 /-- `processSpan`: the trace is created from the first span's key, dataset and environment. -/
